@@ -258,6 +258,26 @@ def fn_map_histories(items):
                 lst.transform_by(M)
                 X = CM(tx, sx)
                 return [arr(lst), arr(X.compose(M)), arr(M.compose(CM(tx, sx)))]
+            # a table in identity order transformed by M / identity.compose(M): the result is overwritten in place afterwards, M must stay what it was
+            for how in ('identity_map.transform_by(M)', 'identity_map.compose(M)'):
+                M = CM(t, s_)
+                ident = (lib.pc if py else lib.torch_mods()['tc']).identity_map(N)
+                try:
+                    T = ident.transform_by(M) if how.endswith('transform_by(M)') else ident.compose(M)
+                    if N >= 2:
+                        T.embed(CM(t1, s1), mkm())
+                    if py:
+                        T.gs[...] = 1 - T.gs
+                    else:
+                        T.gs.copy_(1 - T.gs)
+                except Exception:
+                    continue
+                n += 1
+                nt += 1
+                mg, mp = arr(M)
+                if (mg != t).any() or (mp != np.asarray(s_) % 4).any():
+                    viol.append(V('C03/map-history/%s/result-aliases-map' % pkg, [pkg, N, k, k + 1],
+                                  '%s N=%d map #%d: after %s the RESULT was overwritten in place (embed, array write) and the map M changed with it' % (pkg, N, k, how)))
             for enm, ev in evolutions:
                 M = CM(t, s_)
                 use(M)
@@ -275,6 +295,57 @@ def fn_map_histories(items):
                         viol.append(V('C03/map-history/%s/%s' % (pkg, enm.split('(')[0] + ('-mask' if 'mask' in enm else '') + ('-itself' if 'itself' in enm else '')), [pkg, N, k, k + 1],
                                       '%s N=%d map #%d: used, then evolved in place by %s, then used again: %s does not follow the current rows of the map' % (pkg, N, k, enm, what)))
                         break
+    return {'n': n, 'nt': nt, 'viol': viol}
+
+
+def fn_gate_regenerate(items):
+    """item = [pkg, n, gi]: a rotation gate on n qubits is compiled, then given ANOTHER generator (set_generator), and
+    compiled again: gate.forward / backward and the gate's forward_map / backward_map must all be the rotation by the
+    NEW generator (reference: the exactly signed rule U^dag P U = i P G for anticommuting P).  Also for a copy of the
+    compiled gate whose generator is then replaced."""
+    from .c02 import ref_rotate
+    n = nt = 0
+    viol = []
+    for pkg, nq, gi in items:
+        py = pkg == 'py'
+        ci = lib.pci if py else lib.torch_mods()['tci']
+        P, PL = (lib.P, lib.PL) if py else (lib.tP, lib.tPL)
+        arr = (lambda L: (np.asarray(L.gs).astype(np.int64), np.asarray(L.ps).astype(np.int64) % 4)) if py else (lambda L: (lib.t2n(L.gs), lib.t2n(L.ps) % 4))
+        G = ref.all_g(nq)
+        Gs, Ps = group_arrays(nq)
+        g1 = G[gi]
+        for gj in range(1, len(G), 1 if nq == 1 else 3):
+            for p1, p2 in ((0, 2), (2, 0)):
+                g2 = G[gj]
+                eg, ep, a = ref_rotate(g2, p2, Gs, Ps)
+                for how in ('compile-set-compile', 'compile-copy-set-compile'):
+                    try:
+                        gate = ci.CliffordGate(*range(nq))
+                        gate.set_generator(P(g1, p1))
+                        gate.compile()
+                        if how == 'compile-copy-set-compile':
+                            gate = gate.copy()
+                        gate.set_generator(P(g2, p2))
+                        gate.compile()
+                        lst = PL(Gs, Ps)
+                        gate.forward(lst)
+                        og, op = arr(lst)
+                        lst2 = PL(Gs, Ps)
+                        lst2.transform_by(gate.forward_map)
+                        mg, mp = arr(lst2)
+                        lst3 = PL(eg, ep)
+                        gate.backward(lst3)
+                        bg, bp = arr(lst3)
+                    except Exception:
+                        continue
+                    n += 3
+                    nt += 3
+                    for what, (xg, xp), (wg, wp) in (('gate.forward', (og, op), (eg, ep)), ('gate.forward_map', (mg, mp), (eg, ep)), ('gate.backward', (bg, bp), (Gs, Ps % 4))):
+                        if (xg != wg).any() or (xp != wp % 4).any():
+                            viol.append(V('C03/gate-regenerate/%s/%s/%s' % (pkg, how, what.split('.')[1]), [pkg, nq, gi],
+                                          '%s: CliffordGate on %d qubits with generator %s, compiled, then set_generator(%s), compiled again (%s): %s is not the rotation by the new generator' % (
+                                              pkg, nq, ref.g_to_str(g1, p1), ref.g_to_str(g2, p2), how, what)))
+                            break
     return {'n': n, 'nt': nt, 'viol': viol}
 
 
@@ -446,6 +517,8 @@ def legs(tier):
     hs = 97 if tier == 'quick' else 7
     out.append(Leg('map_histories', fn_map_histories, [[pkg, 1, 0, 24] for pkg in ('py', 'torch')] + [[pkg, 2, lo, lo + 1] for pkg in ('py', 'torch') for lo in range(0, 11520, hs)], chunk=8,
                    bound='both packages: use -> evolve in place (transform_by a map / itself / masked, rotate_by, embed) -> use again on ONE map object: all 24 N=1 maps, every %dth N=2 map' % hs))
+    out.append(Leg('gate_regenerate', fn_gate_regenerate, [[pkg, nq, gi] for pkg in ('py', 'torch') for nq in (1, 2) for gi in range(1, 4 ** nq)], chunk=2,
+                   bound='both packages: rotation gate compiled, generator replaced (all first generators of 1-2 qubits x all / every third second generator, both sign pairs), compiled again (also on a copy of the compiled gate): forward, forward_map, backward'))
     out.append(Leg('embed_sequences', fn_embed_seq, [[pkg, N] for pkg in ('py', 'torch') for N in (2, 3, 4)], chunk=1,
                    bound='both packages, N=2,3,4: every ordered choice of 2 or 3 pairwise disjoint masks of 1-2 qubits (holes included) embedded one after another into one identity map'))
     out.append(Leg('rotation_maps', fn_rotmap, [[N, gi] for N in (1, 2, 3) for gi in range(4 ** N)], chunk=4,
